@@ -199,7 +199,8 @@ func TestVerifC14(t *testing.T) {
 	for _, c := range verifReadCases() {
 		cur := &verifCur{n: c.nums}
 		low, hi, align, probeFail, idFail := cur.Next(), cur.Next(), cur.Next(), cur.Next(), cur.Next()
-		if low == 0 {
+		kernelWindow := low == 0
+		if kernelWindow {
 			low, hi, align = uint64(defLow), uint64(defHi), uint64(defAlign)
 		}
 		im := &c14Image{}
@@ -377,6 +378,13 @@ func TestVerifC14(t *testing.T) {
 			if probeFail != 0 {
 				stats["probe-seam-failure(agreement only)"]++
 				return
+			}
+			// the monitor's own idea of the search area: the window and alignment handed to the code,
+			// or, when the code runs with its built-in window, the BIOS area 0xE0000-0xFFFFF of the
+			// ACPI specification scanned on 16-byte boundaries
+			low, hi, align := low, hi, align
+			if kernelWindow {
+				low, hi, align = 0xe0000, 0xfffff, 16
 			}
 			if align == 0 || hi+align < hi {
 				return
@@ -585,7 +593,11 @@ func TestVerifC14(t *testing.T) {
 				return
 			}
 			if initPanic != nil {
-				fail("c14:init-panic", "DriverInit panicked (%v) although every table byte is present", initPanic)
+				where := ""
+				if e, ok := initPanic.(interface{ Addr() uintptr }); ok {
+					where = fmt.Sprintf(" reading address %#x", e.Addr())
+				}
+				fail("c14:init-panic", "DriverInit panicked (%v%s) although every table byte is present", initPanic, where)
 				return
 			}
 			if initErr != nil {
@@ -653,7 +665,9 @@ func TestVerifC14(t *testing.T) {
 		keys = append(keys, k)
 	}
 	sort.Strings(keys)
+	line := ""
 	for _, k := range keys {
-		out.Info("c14-monitor", "%s=%d", k, stats[k])
+		line += fmt.Sprintf("%s=%d; ", k, stats[k])
 	}
+	out.Info("c14-monitor", "%s", line)
 }
